@@ -120,6 +120,7 @@ func (t *Task) IsDaemon() bool { return t.daemon }
 
 // Sim is one simulated run.
 type Sim struct {
+	timerSeq        int
 	heldAcrossYield bool
 	lastGoID        uint64
 	Tape            *core.Tape
@@ -405,43 +406,69 @@ func (s *Sim) launch(t *Task, body func(task int)) {
 	}()
 }
 
-// AddTimer registers fire to run when the simulated monotonic clock reaches MonoNs+d.
+// AddTimer registers fire to run when the simulated monotonic clock reaches MonoNs+d. The
+// pending timers are a binary heap ordered by (deadline, registration number): code that arms a
+// timer per call and never lets it fire (a frozen clock) would otherwise make every step scan
+// all of them.
 func (s *Sim) AddTimer(d int64, fire func()) {
 	if d < 0 {
 		d = 0
 	}
-	s.timers = append(s.timers, timer{at: s.MonoNs + d, seq: len(s.timers), fire: fire})
+	s.timerSeq++
+	s.timers = append(s.timers, timer{at: s.MonoNs + d, seq: s.timerSeq, fire: fire})
+	// sift up
+	i := len(s.timers) - 1
+	for i > 0 {
+		p := (i - 1) / 2
+		if !timerLess(s.timers[i], s.timers[p]) {
+			break
+		}
+		s.timers[i], s.timers[p] = s.timers[p], s.timers[i]
+		i = p
+	}
+}
+
+func timerLess(a, b timer) bool { return a.at < b.at || (a.at == b.at && a.seq < b.seq) }
+
+func (s *Sim) popTimer() timer {
+	top := s.timers[0]
+	n := len(s.timers) - 1
+	s.timers[0] = s.timers[n]
+	s.timers[n] = timer{}
+	s.timers = s.timers[:n]
+	i := 0
+	for {
+		l, r, m := 2*i+1, 2*i+2, i
+		if l < n && timerLess(s.timers[l], s.timers[m]) {
+			m = l
+		}
+		if r < n && timerLess(s.timers[r], s.timers[m]) {
+			m = r
+		}
+		if m == i {
+			break
+		}
+		s.timers[i], s.timers[m] = s.timers[m], s.timers[i]
+		i = m
+	}
+	return top
 }
 
 // fireTimers runs every timer whose deadline has passed, in (deadline, registration) order.
 func (s *Sim) fireTimers() {
-	for {
-		best := -1
-		for i, t := range s.timers {
-			if t.at <= s.MonoNs && (best < 0 || t.at < s.timers[best].at || (t.at == s.timers[best].at && t.seq < s.timers[best].seq)) {
-				best = i
-			}
-		}
-		if best < 0 {
-			return
-		}
-		f := s.timers[best].fire
-		s.timers = append(s.timers[:best], s.timers[best+1:]...)
+	for len(s.timers) > 0 && s.timers[0].at <= s.MonoNs {
+		t := s.popTimer()
 		s.Faults.Inc("timer_fired")
-		f()
+		t.fire()
 	}
 }
 
 // nextTimer returns the earliest pending deadline.
 func (s *Sim) nextTimer() (int64, bool) {
-	var at int64
-	ok := false
-	for _, t := range s.timers {
-		if !ok || t.at < at {
-			at, ok = t.at, true
-		}
+	if len(s.timers) == 0 {
+		return 0, false
 	}
-	return at, ok
+	return s.timers[0].at, true
 }
 
 // NewObjID hands out per-run object ids in order of first use.
